@@ -373,6 +373,92 @@ def c02(report):
                            "(x-mu)'(C + lambda diag(s2))^-1 c"]
 
 
+# ---------------------------------------------------------------------------
+# parallel helpers (Par.tla, TracePar.tla)
+PAR_INVS = ["Inv_C05_RowLocal", "Inv_C05_Partition", "Inv_C05_FitOrder"]
+
+
+def c05(report):
+    from harness import par, tlc, nb
+    from harness.common import ROOT
+    report.nontrivial_rule = ("(policy combination, batch, partition, chunk start order, backend) tuples enumerated by TLC and "
+                              "executed chunk by chunk on the real _predict_contexts; plus real joblib runs validated by TracePar")
+    thorough = report.tier == "thorough"
+    # leg A: the design - every partition, schedule and backend; the partition arithmetic
+    result = tlc.run("Par", dict(MaxRows=5 if thorough else 4, Backends={"seq", "threads", "procs"}, Arms={"a", "b", "c"},
+                                 Dev=set()), invariants=PAR_INVS + ["EmitDone"], constraint=None, view="View", workers=1,
+                     timeout=1200)
+    if result.violated:
+        raise Machinery("Par.tla: %s violated in the clean model" % result.violated)
+    report.add_tlc("Par/schedules", result, PAR_INVS, note="all compositions x backends x interleavings")
+    schedules = result.edges
+    arith = tlc.run("Par", dict(MaxRows=1, Backends={"seq"}, Arms={"a"}, Dev=set()), invariants=["Inv_C05_ExactCover"],
+                    constraint=None, view="View", workers=1, timeout=600)
+    if arith.violated:
+        raise Machinery("Par.tla: Inv_C05_ExactCover violated")
+    report.add_tlc("Par/partition-arithmetic", arith, ["Inv_C05_ExactCover"], note="n <= 64, n_jobs in -66..66, cpu in {1,2,16}")
+    devs = ["TreeLeafUsesMainRng", "ReseedAfterUse", "SeedsPerChunkTimesFirst", "ReduceInCompletionOrder", "FitTaskReadsShared"]
+    for dev in (devs if thorough else [devs[report.seed % len(devs)]]):
+        neg = tlc.run("Par", dict(MaxRows=4, Backends={"seq", "threads", "procs"}, Arms={"a", "b", "c"}, Dev={dev}),
+                      invariants=PAR_INVS, constraint=None, view="View", workers=4, timeout=600)
+        report.states += neg.states
+        report.transitions += neg.generated
+        report.negatives.append({"deviation": dev, "module": "Par", "tlc_reported": neg.violated, "ok": neg.violated is not None})
+        if neg.violated is None:
+            raise Machinery("Par deviation %s produced no counterexample" % dev)
+    findings, counters = [], {}
+    # leg A': the code's partition equals CodePartition (validated by TLC)
+    calls = par.partition_table(findings, counters)
+    # leg B: every schedule executed chunk by chunk
+    combos = [("radius", "eg", dict(epsilon=0.4)), ("radius", "ts", {}), ("knearest", "softmax", dict(k=3)),
+              ("lsh", "ts", {}), ("clusters", "ts", {}), ("clusters", "eg", dict(epsilon=0.4)), ("tree", "ucb1", {}),
+              ("tree", "ts", {}), ("tree", "eg", dict(epsilon=0.4)), ("radius", "lin-ts", dict(radius=(3, 1))),
+              ("knearest", "lin-ts", dict(k=4)), ("lsh", "lin-ts", dict(n_dims=1, n_tables=2)), ("clusters", "lin-ts", {}),
+              ("radius", "lin-ucb", dict(radius=(3, 1))), ("lsh", "pop", {}), ("knearest", "random", {})]
+    if not thorough:
+        keep = [c for i, c in enumerate(combos) if (i + report.seed) % 2 == 0 or c[1] in ("lin-ts",) or c[0] == "tree"]
+        combos = keep
+    cfgs = [nb.NbConfig(np_, lp=lp, **kw) for np_, lp, kw in combos]
+    use = schedules if thorough else [s for s in schedules if s["m"] >= 2][:: 2]
+    par.leg_b(cfgs, use, report.seed, findings, counters)
+    par.fit_orders([c for c in cfgs if c.np == "tree"], report.seed, findings, counters)
+    # leg C: real joblib runs with hooks on
+    jobs = [(1, None), (2, "threading"), (3, "threading"), (4, None), (-1, "threading")]
+    if thorough:
+        jobs += [(2, "loky"), (5, "loky"), (64, "threading"), (-2, None), (2, "multiprocessing")]
+    else:
+        jobs += [[(2, "loky")], [(3, "multiprocessing")], [(64, "threading")]][report.seed % 3]
+    ccfgs = [dict(np_=np_, lp=lp, **kw) for np_, lp, kw in combos if not (np_ == "tree" and lp in ("ts", "eg"))][: 10 if thorough else 5]
+    ccfgs += [dict(np_=None, lp=lp) for lp in (["ucb1", "ts", "softmax", "lin-ucb", "lin-ts"] if thorough else ["ucb1", "lin-ts"])]
+    ccfgs += [dict(np_="tree", lp="ts"), dict(np_="clusters", lp="lin-ts")][: 2 if thorough else 1]
+    for c in ccfgs:
+        if isinstance(c.get("radius"), tuple):
+            c["radius"] = list(c["radius"])
+    calls += par.leg_c(ccfgs, jobs, 3 if not thorough else 5, report.seed, findings, counters, ROOT)
+    res, ok, fails = par.validate_calls(calls)
+    report.add_tlc("TracePar/recorded-calls", res, note="%d recorded _parallel_predict / _partition_contexts calls" % len(calls))
+    report.traces += len(calls)
+    for tid, clause in fails.items():
+        call = calls[tid - 1]
+        findings.append({"clause": "trace." + clause, "detail": "TracePar rejects the recorded call %s" % json.dumps(call)[:600],
+                         "op": "predict", "label": {"call": tid, "tags": []}, "path": [], "binding": call.get("cfg", {}),
+                         "engine": "par"})
+    missing = set(range(1, len(calls) + 1)) - ok - set(fails)
+    if missing:
+        raise Machinery("TracePar gave no verdict for calls %s" % sorted(missing)[:5])
+    report.findings += findings
+    for k, v in counters.items():
+        report.count("par." + k, v)
+    report.replayed += counters.get("schedules", 0)
+    report.evaluations = counters.get("schedules", 0) + counters.get("row_alone", 0) + len(calls) + counters.get("joblib_runs", 0)
+    report.nontrivial = set(range(counters.get("schedules", 0)))
+    report.samples += [{"engine": "Par.tla schedule executed on _predict_contexts", "schedule": s} for s in use[5:8]]
+    report.samples += [{"engine": "recorded joblib call validated by TracePar.tla", "call": c} for c in calls[-2:]]
+    report.assumptions += ["process-based backends are compared through their results and through hook events written per "
+                           "process; row-level interleavings inside a chunk cannot be forced from outside and are covered by "
+                           "the chunk start orders TLC enumerates"]
+
+
 def _nontrivial_from_counts(report, key=None):
     # distinct non-trivial cases are counted by the replay engine per job (distinct spec states / edges)
     n = report.coverage.get(key, 0) if key else report.coverage.get("cf.states", 0)
@@ -380,7 +466,7 @@ def _nontrivial_from_counts(report, key=None):
     report.evaluations = report.replayed
 
 
-CHECKS = {"C01": c01, "C02": c02, "C03": c03, "C11": c11, "C12": c12, "C06": c06, "C07": c07, "C08": c08, "C09": c09, "C10": c10, "C13": c13, "C14": c14,
+CHECKS = {"C01": c01, "C02": c02, "C03": c03, "C05": c05, "C11": c11, "C12": c12, "C06": c06, "C07": c07, "C08": c08, "C09": c09, "C10": c10, "C13": c13, "C14": c14,
           "C17": c17, "C19": c19}
 
 
